@@ -58,6 +58,11 @@ def trigger_documents(tier):
         out.append(f'{long_text * 2}\n\n{{| class="mp-upper"\n|-\n| colspan={n} | a\n| b\n|-\n| c || d\n|}}\n')
         out.append(f'{long_text * 2}\n\n{{| class="mp-upper"\n|-\n| rowspan={n} | a\n| b\n|-\n| c || d\n|}}\n')
         out.append(f'{long_text * 2}\n\n{{|\n|-\n| colspan="{n}" | ' + ("word " * 600) + '\n| b\n| c\n|}\n')
+    # span values that look like numbers to some predicates and not to int(): superscripts, circled digits, other scripts,
+    # signs, blanks, more digits than int() accepts
+    for v in ("\u00b2", "\u2460", "\u0663", "+2", "-2", " 2 ", "2.0", "1e3", "0x10", "2" * 5000, "", "\u00bd", "\uff12", "1_0"):
+        for key in ("colspan", "rowspan"):
+            out.append(f'{{|\n|-\n| {key}="{v}" | a\n| b\n|-\n| c || d\n|}}\n')
     # attribute values that are numbers written in the wikitext
     out.append('intro\n\n{|\n|-\n| colspan="99999999999" | ' + ("word " * 600) + '\n| b\n| c\n|}\n')
     out.append('intro\n\n{|\n|-\n| colspan="3000000" | ' + ("word " * 1100) + '\n| b\n|}\n')
